@@ -117,6 +117,31 @@ SelfRef ==
                       FlowB(<<C(S0, PE("q", "")), C(PE("q", ""), FE("A", "start"))>>, <<C(S0, PE("q", "")), C(PE("q", ""), S1)>>)>>,
            quotas |-> <<>>]}
 
+\* flow references of every kind: into a flow under a condition or unconditionally (`to: flow at start`), behind a flow
+\* (`from: flow at end`) in front of a conditional or an unconditional processor, the same flow referenced on both sides
+\* (a cycle through the incorporated processors), a referenced flow that itself branches; request and response direction
+Ub2 == <<Pr("q", "Plain"), Pr("k", "Cond")>>
+BPlain == <<C(S0, PE("q", "")), C(PE("q", ""), S1)>>
+BCond == <<C(S0, PE("k", "")), C(PE("k", "hit"), PE("q", "")), C(PE("k", "miss"), S1), C(PE("q", ""), S1)>>
+BVariants(k) == IF k <= 2 THEN {Flow("B", "h.test/y", Ub2, BCond, BCond)}
+                ELSE {Flow("B", "h.test/y", Ub2, BPlain, BPlain), Flow("B", "h.test/y", Ub2, BCond, BCond)}
+RefEntries == {<<C(S0, PE("c", ""))>>, <<C(S0, PE("p", ""))>>, <<C(FE("B", "end"), PE("c", ""))>>, <<C(FE("B", "end"), PE("p", ""))>>}
+RefBody == <<C(PE("c", "hit"), PE("p", "")), C(PE("c", "hit"), S1), C(PE("c", "hit"), FE("B", "start")),
+             C(PE("c", "miss"), S1), C(PE("c", "miss"), FE("B", "start")), C(PE("c", "miss"), PE("p", "")),
+             C(PE("p", ""), S1), C(PE("p", ""), FE("B", "start")), C(PE("p", ""), PE("c", ""))>>
+HasFlowRef(l) == \E i \in 1..Len(l) : l[i].f.k = "F" \/ l[i].t.k = "F"
+RefLists(k) == {l \in {e \o [i \in 1..Len(Asc(I)) |-> RefBody[Asc(I)[i]]] : e \in RefEntries, I \in KSub(Len(RefBody), k)} : HasFlowRef(l)}
+RefFam(k) == UNION {
+    {[flows |-> <<Flow("A", "h.test/x", Ua, l, AFixed), b>>, quotas |-> <<>>] : l \in RefLists(k), b \in BVariants(k)},
+    {[flows |-> <<Flow("A", "h.test/x", Ua, AFixed, l), b>>, quotas |-> <<>>] : l \in RefLists(k), b \in BVariants(k)}}
+
+\* the response walk behind an answering processor: chains of processors of every kind (>= 2 deep) behind the Gen
+ChainReq == <<C(S0, PE("c", "")), C(PE("c", "hit"), PE("g", "")), C(PE("c", "miss"), S1)>>
+ChainBody == SelectSeq(Cands(Ut), LAMBDA x : x.f.k = "P" /\ x.f.n # "g")
+ChainFam(k) ==
+    {Cfg1(Ut, ChainReq, <<C(PE("g", ""), PE(first, ""))>> \o [i \in 1..Len(Asc(I)) |-> ChainBody[Asc(I)[i]]]) :
+        first \in {"c", "p"}, I \in KSub(Len(ChainBody), k)}
+
 \* structurally invalid files
 Bad ==
     {Cfg1(Ut, <<>>, Trivial), Cfg1(Ut, Trivial, <<>>), Cfg1(Ut, Trivial, Trivial),
@@ -129,7 +154,7 @@ Bad ==
 \* (an operator with a parameter, so that TLC evaluates only the space that is used)
 ConfigSpace(tier) ==
     IF tier = "nv" THEN UNION {EntryFam(Ut, 2), ResCentric(Uq, 2), TwoFlows(2), SelfRef}
-    ELSE IF tier = "quick" THEN UNION {ReqCentric(Uq, 3), ResCentric(Uq, 3), EntryFam(Ut, 3), TwoFlows(1), SelfRef, Bad}
+    ELSE IF tier = "quick" THEN UNION {ReqCentric(Uq, 3), ResCentric(Uq, 3), EntryFam(Ut, 3), RefFam(2), ChainFam(2), SelfRef, Bad}
     ELSE IF tier = "mid" THEN UNION {ReqCentric(Ut, 3), ResCentric(Ut, 3), TwoFlows(2), SelfRef, Bad}
-    ELSE UNION {ReqCentric(Ut, 3), EntryFam(Ut, 4), ResCentric(Ut, 3), EntryFam(Ul, 3), TwoFlows(3), SelfRef, Bad}
+    ELSE UNION {ReqCentric(Ut, 3), EntryFam(Ut, 4), ResCentric(Ut, 3), EntryFam(Ul, 3), TwoFlows(3), RefFam(3), ChainFam(3), SelfRef, Bad}
 =============================================================================
